@@ -5,31 +5,21 @@ use crate::queries::*;
 use crate::run::{Params, Run};
 use crate::util::Rng;
 
-pub fn run(p: &Params) -> Run {
-    let mut run = Run::new("C11");
-    let mut rng = Rng::new(p.seed ^ 0x11);
-    let n = p.n(1200, 40_000);
-    let opts = QueryOpts { allow_limit: false, allow_distinct: true, allow_join: false, aggregate: None };
-    for _ in 0..n {
-        let sch = gen_schema(&mut rng);
-        let gq = gen_query(&mut rng, &sch, &opts, "");
-        let prepared = match prepare(&sch.defs, &gq.text) { Ok(p) => p, Err(_) => { run.count("rejected"); continue; } };
-        let nl = rng.below(9);
-        let np = *rng.pick(&[10u64, 30, 60]);
-        let lines = gen_input(&mut rng, nl, np, false);
+fn one_case(run: &mut Run, defs: &str, text: &str, is_aggregate: bool, lines: &[String]) {
+        let prepared = match prepare(defs, &text) { Ok(p) => p, Err(_) => { run.count("rejected"); return; } };
         let (wire, steps) = run_incremental(&prepared, &lines);
-        let desc = format!("query={} input={:?}", gq.text, lines);
+        let desc = format!("query={} input={:?}", text, lines);
         // correspondence with the model's line-at-a-time driver
         if let Some(case) = incr_case(&prepared, b"", &join_lines(&lines)) {
             let kind = if wire.contains("err:") { "err" } else if wire.contains("panic") { "panic" } else { "ok" };
-            run.case_with_desc(case, wire.clone(), format!("{}:{}:d{}:h{}:n{}", if gq.is_aggregate { "agg" } else { "sel" }, kind, gq.text.contains("DISTINCT") as u8, gq.text.contains("HAVING") as u8, lines.len().min(5)), desc.clone());
+            run.case_with_desc(case, wire.clone(), format!("{}:{}:d{}:h{}:n{}", if is_aggregate { "agg" } else { "sel" }, kind, text.contains("DISTINCT") as u8, text.contains("HAVING") as u8, lines.len().min(5)), desc.clone());
         }
         if wire.contains("panic") {
             run.oracle_checks += 1;
             run.fail(desc.clone(), "panic:incremental", "line-at-a-time execution panicked".to_owned());
-            continue;
+            return;
         }
-        if wire.contains("err:") { run.count("incremental-error"); continue; }
+        if wire.contains("err:") { run.count("incremental-error"); return; }
         // the relation, evaluated on the implementation for every prefix
         let mut shown: Option<Vec<String>> = None; // records of the last table shown (aggregate)
         let mut emitted: Vec<String> = Vec::new(); // all records emitted so far (non-aggregate)
@@ -41,7 +31,7 @@ pub fn run(p: &Params) -> Run {
             let render = |cols: &Vec<String>, rows: &Vec<Vec<sqlgrep::model::Value>>| -> Vec<String> {
                 rows.iter().map(|r| if cols.len() == 1 && cols[0] == "input" { format!("{}", r[0]) } else { cols.iter().zip(r.iter()).map(|(c, v)| format!("{}: {}", c, v)).collect::<Vec<_>>().join(", ") }).collect()
             };
-            if gq.is_aggregate {
+            if is_aggregate {
                 if let Some(Some((cols, rows))) = steps.get(k - 1) { shown = Some(render(cols, rows)); }
                 let table = shown.clone().unwrap_or_default();
                 if table != batch.records() {
@@ -60,6 +50,49 @@ pub fn run(p: &Params) -> Run {
                 prev_batch = b;
             }
         }
+    }
+
+pub fn run(p: &Params) -> Run {
+    let mut run = Run::new("C11");
+    let mut rng = Rng::new(p.seed ^ 0x11);
+    let n = p.n(1200, 40_000);
+    let opts = QueryOpts { allow_limit: false, allow_distinct: true, allow_join: false, aggregate: None };
+    for _ in 0..n {
+        let sch = gen_schema(&mut rng);
+        let gq = gen_query(&mut rng, &sch, &opts, "");
+        let nl = rng.below(9);
+        let np = *rng.pick(&[10u64, 30, 60]);
+        let lines = gen_input(&mut rng, nl, np, false);
+        one_case(&mut run, &sch.defs, &gq.text, gq.is_aggregate, &lines);
+    }
+    // targeted stream: HAVING over ONE aggregate of every kind, thresholds inside the data range and inputs whose
+    // values alternate low / high inside one group, so that the group's HAVING outcome flips back and forth as lines
+    // arrive (the table shown after line k must follow every flip)
+    const HAVING_AGGS: &[&str] = &["COUNT(*)", "COUNT(v)", "COUNT(DISTINCT v)", "SUM(v)", "MIN(v)", "MAX(v)", "AVG(v)", "STDDEV(v)", "VARIANCE(v)",
+        "PERCENTILE(v, 0.5)", "PERCENTILE(v, 0.9)", "PERCENTILE(w, 0.5)", "SUM(w)", "AVG(w)"];
+    const SELECT_ITEMS: &[&str] = &["COUNT(*)", "SUM(w)", "MAX(v)", "MIN(w)", "PERCENTILE(v, 0.5)", "COUNT(DISTINCT w)", "AVG(v)"];
+    let m = p.n(400, 12_000);
+    for _ in 0..m {
+        let sch = gen_schema(&mut rng);
+        let grouped = rng.chance(3, 4);
+        let mut items: Vec<String> = Vec::new();
+        if grouped { items.push("k".to_owned()); }
+        for _ in 0..1 + rng.below(2) { items.push((*rng.pick(SELECT_ITEMS)).to_owned()); }
+        let having = if rng.chance(1, 8) {
+            format!("{}(v {} {})", rng.pick(&["BOOL_AND", "BOOL_OR"]), rng.pick(&[">", "<"]), rng.pick(&["5", "50"]))
+        } else {
+            format!("{} {} {}", rng.pick(HAVING_AGGS), rng.pick(&[">", ">=", "<", "<=", "=", "!="]), rng.pick(&["1", "2", "5", "50", "100"]))
+        };
+        let text = format!("SELECT {}{} FROM t{} HAVING {}", if rng.chance(1, 6) { "DISTINCT " } else { "" }, items.join(", "), if grouped { " GROUP BY k" } else { "" }, having);
+        let nl = 2 + rng.below(9);
+        let (lo, hi) = *rng.pick(&[(1i64, 100i64), (0, 9), (2, 60), (-5, 5)]);
+        let lines: Vec<String> = (0..nl).map(|i| {
+            let k = if rng.chance(4, 5) { "a" } else { "b" };
+            let v = if rng.chance(1, 10) { String::new() } else if (i + rng.below(4) / 3) % 2 == 0 { lo.to_string() } else { hi.to_string() };
+            let w = if rng.chance(1, 2) { lo } else { hi };
+            format!("{};{};{};0.5;x;", k, v, w)
+        }).collect();
+        one_case(&mut run, &sch.defs, &text, true, &lines);
     }
     run.notes.push("statements without LIMIT (SELECT and aggregate, DISTINCT, HAVING) fed line by line with the default config; every prefix compared with a fresh batch run".to_owned());
     run
